@@ -31,6 +31,16 @@ var Specs = map[string]*core.Spec{
 		Real: w3Real, Stub: w3Stub,
 		RequiredProbes: []string{"create-ok", "delete-ok", "list-ok", "create-refused-exists", "table-content-checked", "reconciled-node-checked"},
 		Assumptions:    []string{"the catalogue is read with local (stale) reads by design: a change a node's metadata replica has not applied yet counts as overlapping for that node"}},
+	"C07": {Prop: "C07", World: "W3 clustersim", Gen: GenC07, Decode: Decode, Exec: Exec,
+		Rule: "operator tasks through the real replication/backup client and the real Maintenance service: backup (also with writes in flight), later restore into the same cluster after the tables changed, restore of a backup with one flipped byte; follower snapshot recovery observed with the C05 oracle; MaxInMemLogSize in {0, values within a few bytes of cumulative record sizes, default}, value sizes chosen around those thresholds; oracles: the backup file (decoded independently: snappy stream of length-prefixed commands) equals the table at some log index inside the backup call (point-in-time); after Restore returned nil every restored table equals the captured content exactly, got a new larger shard id, other tables are untouched; a corrupted file is refused and the refused table unchanged; non-trivial = a restore of >=2 pairs, a backup overlapping writes, or a follower snapshot install; distinct = digests",
+		Real: append([]string{"replication/backup (Backup, Restore client)"}, w3Real...), Stub: w3Stub,
+		RequiredProbes: []string{"backup-ok", "restore-checked", "restore-multi-pair", "corrupt-backup-refused", "backup-with-concurrent-writes"},
+		Assumptions:    []string{"backup files live in real temporary directories (the backup client takes a directory name)"}},
+	"C15": {Prop: "C15", World: "W3 clustersim (lease tasks gated at store-call granularity)", Gen: GenC15, Decode: Decode, Exec: Exec,
+		Rule: "2-3 follower nodes (real table.Manager over real kv.RaftStore on one simulated metadata shard with one LFSM replica per node, replication workers off so that only the harness leases); tasks call LeaseTable (long / short / already expired durations) and ReturnTable; every metadata-store read and write of a task is a gate where the task parks until the schedule releases it, so calls of different nodes interleave between one's read and the other's write; metadata replicas lag; clock advances; oracle over the order of successful writes in the metadata shard's log: an acknowledged acquisition has its own record, and the record before it is absent, the node's own, or expired at the acquiring node's decision time; a return deletes only the caller's record; errors never leave a record; non-trivial = two calls overlapped between read and write; distinct = digests of outcomes",
+		Real: w3Real, Stub: w3Stub,
+		RequiredProbes: []string{"lease-acquired", "lease-returned", "calls-overlapped-between-read-and-write", "expired-lease-taken-over"},
+		Assumptions:    []string{"all nodes of a bubble share one clock: clock skew between nodes is not injected (the property quantifies over schedules and histories)"}},
 }
 
 func TestRun(t *testing.T) { core.Main(t, Specs) }
